@@ -53,3 +53,8 @@ add("C11", "exploration",
     "Held on the executions explored: in every enumerated ordering of old-stream teardown, new-stream registration and send (send before store when realisable, after store before the old delete, after the old delete, old stream closed by its peer before/while the new one registers), in reopen chains and in reconnect storms, every send made after the new stream's headers were received succeeded and arrived on that stream only; a stream's exit removed only itself.",
     "A schedule the implementation makes impossible (headers visible before the table store) is reported as not realisable. Delivery is awaited up to 5 s on loopback.",
     "DESIGN.md section 4 C11")
+add("C09", "exploration",
+    "runtime monitoring with controlled interleavings: recording writers / raw stream readers capture the bytes of five stream kinds; a strict LF splitter and a WHATWG SSE parser recover frames; multiset-of-nonces comparison; writers parked by the yield controller between payload and terminator / between the lines of an event and released in seeded permutations, plus free-running stress",
+    "Held on the executions explored: on stdio stdout, the Streamable GET stream, the POST SSE stream (notifications from several goroutines of one handler), the legacy SSE stream (with 2 ms keep-alives) and the stdio client's stdin, the reference readers recovered exactly the multiset of messages written, each frame one JSON value, for payloads with CR/LF/U+2028 and sizes around 4096 and 65536, with 2-16 concurrent writers.",
+    "With the write locks in place at most one writer can be inside a frame; the gauges report how many were parked there. stdout of the in-process stdio server is an in-memory writer with atomic Write calls.",
+    "DESIGN.md section 4 C09")
